@@ -169,52 +169,92 @@ INVALID = {"energy": [-1.0], "power": [-1.0], "sigma": [0.0, -0.5], "divergence_
            "length": [0.0, -2.0]}
 
 
-def _mutate(beam, plasma, old, new, log, keys, notes):
-    """Bring the LIVE scene from configuration `old` to configuration `new` through the public mutators only:
-    every beam / attenuator setter (also re-assigning unchanged values), rejected values in between (<= 0 / < 0 must raise
-    ValueError and leave the state alone), attenuator replacement, node transforms and re-parenting, composition
-    set / clear+add / add (replacement of a species with the same element and charge), a new atomic data source."""
+def _micro_steps(old, new):
+    """The change old -> new as a list of single public mutations, each with the configuration that holds after it.
+    Changed fields come first (one setter each, so that a setter that fails to invalidate cached data is observed before
+    another setter repairs it), then every setter is re-assigned its current value."""
+    import copy
+    steps = []
+    cur = copy.deepcopy(old)
+
+    def push(kind, keys_):
+        for k in keys_:
+            cur[k] = copy.deepcopy(new.get(k))
+        steps.append((kind, copy.deepcopy(cur)))
+    for attr, key in (("length", "length"), ("energy", "energy"), ("divergence_y", "div_y"), ("sigma", "sigma"),
+                      ("power", "power"), ("divergence_x", "div_x")):
+        if old[key] != new[key]:
+            push("beam." + attr, [key])
+    if old["element"] != new["element"]:
+        push("beam.element", ["element"])
+    replace = old["clamp"] != new["clamp"] or new.get("att_route") in ("explicit", "defaults") or old.get("att_route") == "defaults"
+    if replace:
+        push("beam.attenuator", ["clamp", "clamp_sigma", "step", "att_route", "att_via_setters"])
+    else:
+        if old["step"] != new["step"]:
+            push("attenuator.step", ["step"])
+        if old["clamp_sigma"] != new["clamp_sigma"]:
+            push("attenuator.clamp_sigma", ["clamp_sigma"])
+    if old["plasma_ops"] != new["plasma_ops"]:
+        push("plasma.transform", ["plasma_ops"])
+    if old["beam_parent_ops"] != new["beam_parent_ops"]:
+        push("beam.parent", ["beam_parent_ops"])
+    if old["beam_ops"] != new["beam_ops"]:
+        push("beam.transform", ["beam_ops"])
+    if old["species"] != new["species"]:
+        push("plasma.composition", ["species", "species_route"])
+    for k in ("argforms", "att_route", "att_via_setters", "species_route"):
+        cur[k] = copy.deepcopy(new.get(k))
+    steps.append(("re-assign every setter", copy.deepcopy(cur)))
+    return steps
+
+
+def _apply(beam, plasma, kind, prev, cfg, log, keys, notes):
+    """one public mutation of the LIVE scene (rejected values are tried first: they must raise ValueError and change nothing)"""
     from raysect.core import Node
     from cherab.core.atomic import elements
     Dist, Data = _stubs(log, keys)
-    for attr, key in (("energy", "energy"), ("power", "power"), ("sigma", "sigma"), ("divergence_x", "div_x"),
-                      ("divergence_y", "div_y"), ("length", "length")):
+    keymap = {"energy": "energy", "power": "power", "sigma": "sigma", "divergence_x": "div_x", "divergence_y": "div_y", "length": "length"}
+
+    def set_beam(attr):
         for bad in INVALID[attr]:
             try:
                 setattr(beam, attr, bad)
                 notes.append("beam.%s = %r was accepted" % (attr, bad))
             except ValueError:
                 pass
-        setattr(beam, attr, _form(new, key, new[key]))          # also when unchanged: re-assignment of the same value
-    beam.element = getattr(elements, new["element"])
-    # attenuator: replaced when the constructor-only flag changes (or on request), otherwise driven through its setters
-    att = beam.attenuator
-    if old["clamp"] != new["clamp"] or new.get("att_route") in ("explicit", "defaults") or old.get("att_route") == "defaults":
-        beam.attenuator = _new_attenuator(new, beam, plasma, beam.atomic_data)
-    else:
+        setattr(beam, attr, _form(cfg, keymap[attr], cfg[keymap[attr]]))
+
+    def set_att(attr, key):
         for bad in (0.0, -1.0):
-            for attr in ("step", "clamp_sigma"):
-                try:
-                    setattr(att, attr, bad)
-                    notes.append("attenuator.%s = %r was accepted" % (attr, bad))
-                except ValueError:
-                    pass
-        att.step = _form(new, "step", new["step"])
-        att.clamp_sigma = _form(new, "clamp_sigma", new["clamp_sigma"])
-    # placement
-    if old["plasma_ops"] != new["plasma_ops"]:
-        plasma.transform = _transform(new["plasma_ops"])
-    if old["beam_parent_ops"] != new["beam_parent_ops"]:
+            try:
+                setattr(beam.attenuator, attr, bad)
+                notes.append("attenuator.%s = %r was accepted" % (attr, bad))
+            except ValueError:
+                pass
+        setattr(beam.attenuator, attr, _form(cfg, key, cfg[key]))
+    if kind.startswith("beam.") and kind[5:] in keymap:
+        set_beam(kind[5:])
+    elif kind == "beam.element":
+        beam.element = getattr(elements, cfg["element"])
+    elif kind == "beam.attenuator":
+        beam.attenuator = _new_attenuator(cfg, beam, plasma, beam.atomic_data)
+    elif kind == "attenuator.step":
+        set_att("step", "step")
+    elif kind == "attenuator.clamp_sigma":
+        set_att("clamp_sigma", "clamp_sigma")
+    elif kind == "plasma.transform":
+        plasma.transform = _transform(cfg["plasma_ops"])
+    elif kind == "beam.parent":
         world = plasma.parent
-        beam.parent = Node(parent=world, transform=_transform(new["beam_parent_ops"])) if new["beam_parent_ops"] else world
-    if old["beam_ops"] != new["beam_ops"] or old["beam_parent_ops"] != new["beam_parent_ops"]:
-        beam.transform = _transform(new["beam_ops"])
-    # species and rates
-    if old["species"] != new["species"]:
-        data = Data(new["species"])
-        same_keys = [(s["element"], s["charge"]) for s in old["species"]] == [(s["element"], s["charge"]) for s in new["species"]]
-        sp = _species_objects(new, Dist)
-        route = new.get("species_route") or "set"
+        beam.parent = Node(parent=world, transform=_transform(cfg["beam_parent_ops"])) if cfg["beam_parent_ops"] else world
+    elif kind == "beam.transform":
+        beam.transform = _transform(cfg["beam_ops"])
+    elif kind == "plasma.composition":
+        data = Data(cfg["species"])
+        same_keys = [(s["element"], s["charge"]) for s in prev["species"]] == [(s["element"], s["charge"]) for s in cfg["species"]]
+        sp = _species_objects(cfg, Dist)
+        route = cfg.get("species_route") or "set"
         if route == "add" and same_keys:
             for o in sp:
                 plasma.composition.add(o)          # replaces the species with the same element and charge
@@ -226,6 +266,15 @@ def _mutate(beam, plasma, old, new, log, keys, notes):
                 plasma.composition.add(o)
         plasma.atomic_data = data
         beam.atomic_data = data
+    else:                                          # re-assignment of every current value
+        for attr in keymap:
+            set_beam(attr)
+        beam.element = getattr(elements, cfg["element"])
+        if cfg.get("att_route") != "defaults":
+            set_att("step", "step")
+            set_att("clamp_sigma", "clamp_sigma")
+        beam.transform = _transform(cfg["beam_ops"])
+        plasma.transform = _transform(cfg["plasma_ops"])
 
 
 def _step_probes(cfg):
@@ -252,37 +301,45 @@ def flat(cfg):
 
 def build(case, log=None, keys=None, trace=None):
     """The real scene in the configuration of `case`.  Without case["history"] it is freshly built.  With a history
-    [c0, c1, ...] ONE live scene is built for c0, observed, mutated to c1, observed, ... and finally mutated to `case`
-    itself; `trace` (a list) receives every step at which the live object is observed to differ from a freshly built
-    object of the same configuration.  `log` / `keys` collect the stopping-rate evaluations / lookups made AFTER the
-    last mutation."""
+    [c0, c1, ...] ONE live scene is built for c0 and observed; each change c_k -> c_k+1 (finally -> `case` itself) is
+    made as a sequence of single public mutations, and after every one of them the live object is observed twice and
+    compared with a freshly built object of the configuration that holds at that moment; `trace` (a list) receives
+    every difference.  The very last mutation is not observed here: the caller evaluates the live object itself, so
+    `log` / `keys` collect the stopping-rate evaluations / lookups made after the last mutation."""
     hist = case.get("history")
     if not hist:
         return _fresh(case, log, keys)
     chain = [flat(c) for c in hist] + [flat(case)]
     beam, plasma = _fresh(chain[0], log, keys)
     notes = []
-    for k, cfg in enumerate(chain):
-        if k > 0:
-            _mutate(beam, plasma, chain[k - 1], cfg, log, keys, notes)
-        if k < len(chain) - 1 or trace is not None:
-            live = _observe(beam, cfg)
-            again = _observe(beam, cfg)                           # second use of the same object
-            if trace is not None:
-                ref = _observe(_fresh(cfg)[0], cfg)
-                if live != ref or again != ref:
-                    bad = [i for i, (a, b, c2) in enumerate(zip(live, again, ref)) if a != c2 or b != c2]
-                    trace.append({"step": k, "configuration": cfg, "previous": chain[k - 1] if k else None,
-                                  "probe": _step_probes(cfg)[bad[0] // 2], "live": live[bad[0]], "second_call": again[bad[0]],
-                                  "fresh": ref[bad[0]]})
+    micro = [("fresh", chain[0])]
+    for k in range(1, len(chain)):
+        micro += _micro_steps(chain[k - 1], chain[k])
+    for j, (kind, cfg) in enumerate(micro):
+        if j > 0:
+            _apply(beam, plasma, kind, micro[j - 1][1], cfg, log, keys, notes)
+        if j == len(micro) - 1:
+            break
+        live = _observe(beam, cfg)
+        again = _observe(beam, cfg)                               # second use of the same object
+        if trace is not None:
+            ref = _observe(_fresh(cfg)[0], cfg)
+            if live != ref or again != ref:
+                bad = [i for i, (a, b, c2) in enumerate(zip(live, again, ref)) if a != c2 or b != c2]
+                trace.append({"step": j, "mutation": kind, "configuration": cfg, "previous": micro[j - 1][1] if j else None,
+                              "probe": _step_probes(cfg)[bad[0] // 2], "live": live[bad[0]], "second_call": again[bad[0]],
+                              "fresh": ref[bad[0]]})
     if trace is not None:
         for n_ in notes:
-            trace.append({"step": "setter", "note": n_})
+            trace.append({"step": "setter", "mutation": n_})
+        case["_n_micro"] = len(micro) - 1
     if log is not None:
         del log[:]
     if keys is not None:
         del keys[:]
-    # the caches were populated by the observation above: a last no-op re-assignment must invalidate them again
+    # the object was last observed before the final mutation: make that one a mutation that changes something, so that
+    # cached data must have been invalidated by it
+    beam.energy = _form(case, "energy", case["energy"] * 2)
     beam.energy = _form(case, "energy", case["energy"])
     return beam, plasma
 
@@ -393,11 +450,11 @@ def _profile(rng, kind, base, p0, p1, axis, full):
     return ["s"] + w + [thr, lo, hi]
 
 
-def gen_case(rng, idx):
+def _gen_flat(rng, idx, special=None):
     case = {"id": idx}
     classes = []
     case["element"] = rng.choice(BEAM_ELEMENTS)
-    full = rng.random() < 0.3          # full-precision doubles vs short dyadic inputs
+    full = rng.random() < 0.3 and special not in ("defaults", "nodes100")     # full-precision doubles vs short dyadic inputs
     case["energy"] = rng.uniform(2e3, 1.2e5) if full else float(rng.randint(4, 240) * 500)
     case["power"] = rng.uniform(1e4, 5e6) if full else float(rng.randint(1, 500) * 10000)
     case["sigma"] = rng.uniform(0.01, 0.3) if full else dyadic(rng, 0.01, 0.3, 8)
@@ -430,12 +487,28 @@ def gen_case(rng, idx):
         case["step"] = L / (rng.uniform(3.2, 40.0) if big else rng.uniform(3.2, 14.0))
         if not full:
             case["step"] = max(round(case["step"] * 256), 1) / 256.0
+    if special in ("nodes3", "nodes2"):
+        # length / step exactly 3: 1 + 3 = 4 nodes without the lower bound acting; exactly 2: the lower bound of 4 acts
+        k = 3 if special == "nodes3" else 2
+        case["step"] = rng.uniform(0.1, 1.0) if full else dyadic(rng, 0.125, 1, 3)
+        case["length"] = L = k * case["step"]
+        nk = "k=%d" % k
+    elif special == "nodes100":        # 99, 100 or 101 axis nodes
+        k = rng.choice([98, 99, 100])
+        case["length"], case["step"] = k / 32.0, 1 / 32.0
+        L, nk = case["length"], "99-101"
+    elif special == "defaults":        # SingleRayAttenuator() with its documented defaults
+        case["length"] = L = dyadic(rng, 0.125, 0.3125, 4) if not full else rng.uniform(0.1, 0.3)
+        case["step"], nk = 0.01, "default-step"
     classes.append("nodes:" + nk)
     case["clamp"] = rng.random() < 0.55
     case["clamp_sigma"] = rng.choice([5.0, 3.0, dyadic(rng, 1, 6, 3), rng.uniform(1.0, 6.0) if full else dyadic(rng, 1, 6, 2)])
     classes.append("clamp:on" if case["clamp"] else "clamp:off")
-    case["att_via_setters"] = rng.random() < 0.5
-    classes.append("attenuator:setters" if case["att_via_setters"] else "attenuator:constructor")
+    case["att_route"] = rng.choice(["constructor", "constructor", "setters", "setters", "explicit"])
+    if special == "defaults":
+        case["att_route"], case["clamp"], case["clamp_sigma"] = "defaults", False, 5.0
+        classes[-1] = "clamp:off"
+    classes.append("attenuator:" + case["att_route"])
     if full:
         bk = rng.choice(["translated", "axis", "general", "general"])
         pk = rng.choice(["identity", "translated", "general"])
@@ -454,8 +527,12 @@ def gen_case(rng, idx):
     p1 = [origin[i] + L * axis[i] for i in range(3)]
 
     nsp = rng.choice([1, 2, 2, 3, 3, 4])
+    if special == "nodes100":
+        nsp = 1
+    if special == "empty":             # a plasma without species: nothing stops the beam
+        nsp = 0
     chosen = rng.sample(SPECIES, nsp)
-    no_stopping = (idx % 8 == 3) or rng.random() < 0.04     # the no-stopping class is always present
+    no_stopping = (idx % 8 == 3) or rng.random() < 0.04 or nsp == 0    # the no-stopping class is always present
     heavy = rng.random() < 0.15
     varying = False
     sp = []
@@ -469,6 +546,8 @@ def gen_case(rng, idx):
             tb = float(rng.randint(20, 8000))
         dkind = rng.choice(["u", "u", "l", "l", "s"])
         tkind = rng.choice(["u", "u", "u", "l", "s"])
+        if special == "nodes100":
+            dkind, tkind = rng.choice(["u", "l"]), "u"
         dens = _profile(rng, dkind, base, p0, p1, axis, full)
         temp = _profile(rng, tkind, tb, p0, p1, axis, full)
         vk = rng.choice(["zero", "zero", "zero", "u", "u", "l"])
@@ -519,6 +598,109 @@ def gen_case(rng, idx):
     return case
 
 
+def _scale_profile(p, fv, fg):
+    """values * fv, positions * fg"""
+    if p[0] == "u":
+        return ["u", p[1] * fv]
+    if p[0] == "l":
+        return ["l", p[1] * fv] + [g * fv / fg for g in p[2:]]
+    return ["s"] + p[1:4] + [p[4] * fg, p[5] * fv, p[6] * fv]
+
+
+def rescale(case, kp, kd, kg):
+    """The property is covariant under these exact (power-of-two) changes of units: beam power * 2^kp; plasma densities
+    * 2^kd with stopping coefficients / 2^kd; all lengths * 2^kg with stopping coefficients / 2^kg."""
+    fp, fd, fg = _pow2(kp), _pow2(kd), _pow2(kg)
+    case["power"] *= fp
+    for k in ("sigma", "length", "step"):
+        case[k] *= fg
+    for key in ("beam_ops", "plasma_ops", "beam_parent_ops"):
+        case[key] = [["t", op[1] * fg, op[2] * fg, op[3] * fg] if op[0] == "t" else op for op in case[key]]
+    for s_ in case["species"]:
+        s_["dens"] = _scale_profile(s_["dens"], fd, fg)
+        s_["temp"] = _scale_profile(s_["temp"], 1.0, fg)
+        s_["vel"] = [_scale_profile(p, 1.0, fg) for p in s_["vel"]]
+        r = s_["rate"]
+        s_["rate"] = ["c", r[1] / fd / fg] if r[0] == "c" else ["a", r[1] / fd / fg, r[2], r[3] / fd, r[4]]
+    return case
+
+
+GUARDS = ["power=0", "energy=0", "divergence=0", "density=0", "rates=0", "temperature=0", "no-species"]
+
+
+def _guard_config(rng, a):
+    """the configuration a with one or two length/density/width-like inputs at the value where a guard or a special
+    case of the code acts (zero)"""
+    import copy
+    g = copy.deepcopy(a)
+    which = rng.sample(GUARDS, rng.choice([1, 1, 2]))
+    for w in which:
+        if w == "power=0":
+            g["power"] = 0.0
+        elif w == "energy=0":
+            g["energy"] = 0.0
+        elif w == "divergence=0":
+            g["div_x"] = g["div_y"] = 0.0
+        elif w == "density=0":
+            for s_ in g["species"]:
+                s_["dens"] = ["u", 0.0]
+        elif w == "rates=0":
+            for s_ in g["species"]:
+                s_["rate"] = ["c", 0.0]
+        elif w == "temperature=0":
+            for s_ in g["species"]:
+                s_["temp"] = ["u", 0.0]
+        else:
+            g["species"] = []
+    return g, which
+
+
+MIX_GROUPS = [["energy"], ["power"], ["element"], ["sigma"], ["div_x", "div_y"], ["length", "step"],
+              ["clamp", "clamp_sigma", "att_route"], ["beam_ops"], ["plasma_ops"], ["beam_parent_ops"], ["species"]]
+
+SPECIAL = {5: "nodes3", 9: "nodes2", 13: "nodes100", 17: "empty", 7: "defaults"}
+
+
+def gen_case(rng, idx):
+    """one configuration plus the regular extra classes: special node counts / empty plasma / default attenuator
+    (by index), argument forms, unit scales, and -- every third case -- a history on one live object."""
+    import copy
+    special = SPECIAL.get(idx % 20)
+    case = _gen_flat(rng, idx, special)
+    classes = case["classes"]
+    if special:
+        classes.append("special:" + special)
+    case["argforms"] = rng.random() < 0.4
+    if case["argforms"]:
+        classes.append("argforms:int/np.float32/np.float64/np.int")
+    case["species_route"] = rng.choice(["add", "set", "clear"])
+    if rng.random() < 0.35 and special != "defaults":
+        kp, kd = rng.randint(-40, 30), rng.randint(-40, 20)
+        kg = rng.randint(-10, 10) if special is None else 0
+        rescale(case, kp, kd, kg)
+        case["scale"] = {"power": kp, "density": kd, "length": kg}
+        classes.append("scale:2^k")
+    if idx % 3 == 1:
+        a = flat(case)
+        other = flat(_gen_flat(rng, idx))
+        b = copy.deepcopy(a)
+        changed = []
+        for grp in MIX_GROUPS:
+            if rng.random() < 0.5:
+                for k in grp:
+                    b[k] = copy.deepcopy(other[k])
+                changed.append(grp[0])
+        if not changed:
+            b["sigma"], b["species"] = other["sigma"], copy.deepcopy(other["species"])
+        g, which = _guard_config(rng, a)
+        kind = rng.choice(["B", "B,G", "G", "same", "G,B", "B,G,B"])
+        hist = {"B": [b], "B,G": [b, g], "G": [g], "same": [copy.deepcopy(a)], "G,B": [g, b], "B,G,B": [b, g, b]}[kind]
+        case["history"] = hist
+        classes.append("history:" + kind)
+        classes += ["guard:" + w for w in which] if "G" in kind else []
+    return case
+
+
 def corpus_cases():
     out = []
     d = os.path.join(VERIF, "corpus", "C04")
@@ -541,14 +723,22 @@ def _tan(div):
 
 def run_case(case):
     from cherab.core.atomic import elements
-    log, keys = [], []
-    beam, plasma = build(case, log, keys)
+    log, keys, trace = [], [], []
+    beam, plasma = build(case, log, keys, trace)
     k = constants()
     L = case["length"]
     nsp = len(case["species"])
     first = beam.density(0.0, 0.0, 0.0)            # triggers the attenuation calculation
     ncalls = len(log)
-    n_nodes = ncalls // nsp if ncalls % nsp == 0 else -1
+    if nsp:
+        n_nodes = ncalls // nsp if ncalls % nsp == 0 else -1
+        if ncalls == 0 and case.get("history"):
+            trace.append({"step": "final", "mutation": "last mutation of the history", "configuration": flat(case),
+                          "note": "the live object made no stopping-rate evaluation after the last mutation of its history (cached attenuation not invalidated, or the rates were never asked)"})
+    else:
+        # no species, no rate evaluations: the node count cannot be observed (and does not matter: every node value
+        # is the source density); the documented count is used for the model's nodes
+        n_nodes = max(1 + int(np.ceil(L / case["step"])), 4) if ncalls == 0 else -1
     m = beam.to(plasma)
     axis = [m[0, 2], m[1, 2], m[2, 2]]
     origin = [m[0, 3], m[1, 3], m[2, 3]]
@@ -558,6 +748,7 @@ def run_case(case):
            "keys": keys[:nsp] if len(keys) >= nsp else keys, "n_key_requests": len(keys),
            "keys_expected": [[case["element"], s["element"], s["charge"]] for s in case["species"]],
            "args": [(e, n, t) for (_, e, n, t, _) in log[:ncalls]], "coef": [v for (_, _, _, _, v) in log[:ncalls]],
+           "history_fail": trace, "n_micro": case.pop("_n_micro", 0),
            "order_ok": [i for (i, _, _, _, _) in log[:ncalls]] == [j for _ in range(max(n_nodes, 0)) for j in range(nsp)]}
 
     s0 = case["sigma"] ** 2
@@ -572,8 +763,12 @@ def run_case(case):
     short = "inputs:dyadic" in case.get("classes", [])
 
     def rnd(v, bits=10):
-        return round(v * (1 << bits)) / float(1 << bits) if short else v
-    pts = [(0.0, 0.0, 0.0), (0.0, 0.0, L), (0.0, 0.0, float(np.nextafter(L, 2 * L))), (0.0, 0.0, L * 1.25),
+        # short inputs: 10 significant bits (relative, so that it also works for rescaled geometries)
+        if not short or v == 0:
+            return v
+        m, e = math.frexp(v)
+        return math.ldexp(round(m * (1 << bits)) / float(1 << bits), e)
+    pts = [(0.0, 0.0, 0.0), (0.0, 0.0, -0.0), (-0.0, 0.0, rnd(0.5 * L)), (0.0, 0.0, L), (0.0, 0.0, float(np.nextafter(L, 2 * L))), (0.0, 0.0, L * 1.25),
            (0.0, 0.0, -1e-300), (0.0, 0.0, -0.5), (case["sigma"], 0.0, 0.0), (rnd(0.3 * case["sigma"]), rnd(-0.4 * case["sigma"]), L)]
     for zi in prng.sample(zs, min(3, len(zs))):
         pts.append((0.0, 0.0, float(zi)))
@@ -594,7 +789,7 @@ def run_case(case):
     def call(fn, x, y, z):
         # an exception on a valid input is a finding: recorded with the input, reported by c04.run
         try:
-            return fn(x, y, z)
+            return fn(*_probe_args(case, x, y, z))
         except Exception as e:                       # noqa: BLE001 (recorded, never swallowed)
             errors.append({"call": fn.__name__, "point": [x, y, z], "exception": "%s: %s" % (type(e).__name__, e)})
             return None
@@ -602,7 +797,7 @@ def run_case(case):
     for (x, y, z) in pts:
         v = call(beam.density, x, y, z)
         dens.append((x, y, z, -1.0 if v is None or v != v else v))
-    dpts = [(0.0, 0.0, 0.5 * L), (0.3, -0.2, 0.0), (0.1, 0.1, -1.0)]
+    dpts = [(0.0, 0.0, 0.5 * L), (0.3, -0.2, 0.0), (0.1, 0.1, -1.0), (case["sigma"], -case["sigma"], -0.0)]
     for _ in range(4):
         z = rnd(prng.uniform(1e-3, 1.2 * L)) or 0.5 * L
         sx, sy = sig(z)
@@ -826,4 +1021,89 @@ def _search_case(case, thorough=False):
                               start=[0.7 * sx0, -1.3 * sy0, z0], end=[x, y, z], u=[u0, x / sx], v=[v0, y / sy]))
     except ArithmeticError as e:
         fails.append(dict(info, claim="direction is a unit vector", detail=[float(t) for t in e.args[0]]))
+    fails += _search_extra(case, beam, plasma, info, sig)
+    return fails
+
+
+def _search_extra(case, beam, plasma, info, sig):
+    """Blind-spot classes: alternative entry points and routes of the anchored files, order of the species, exact
+    floating-point boundaries of the comparisons in the code, extreme magnitudes."""
+    import copy
+    from cherab.core.utility import conversion
+    fails = []
+    L, cs = case["length"], case["clamp_sigma"]
+    att = beam.attenuator
+    pts = [(0.0, 0.0, 0.25 * L), (0.6 * sig(0.5 * L)[0], -0.4 * sig(0.5 * L)[1], 0.5 * L), (0.0, 0.0, L), (0.1 * case["sigma"], 0.0, 0.0)]
+    base = [beam.density(*p) for p in pts]
+
+    # (e) second-order call sites: getters, attenuator.density called directly, explicit calculate_attenuation(),
+    #     conversion round trips, every route to the same attenuator configuration (defaults vs explicit arguments)
+    if att.step != case["step"] or abs(att.clamp_sigma - cs) > 4e-16 * cs or bool(att.clamp_to_zero) != bool(case["clamp"]):
+        fails.append(dict(info, claim="attenuator getters return the configured step / clamp_sigma / clamp_to_zero",
+                          got=[att.step, att.clamp_sigma, bool(att.clamp_to_zero)], want=[case["step"], cs, case["clamp"]]))
+    direct = [att.density(*p) for p in pts]
+    if direct != base:
+        fails.append(dict(info, claim="attenuator.density called directly equals Beam.density inside the beam", points=pts, beam=base, attenuator=direct))
+    att.calculate_attenuation()
+    again = [beam.density(*p) for p in pts]
+    if again != base:
+        fails.append(dict(info, claim="calculate_attenuation() leaves the density unchanged", points=pts, before=base, after=again))
+    e = case["energy"]
+    v = conversion.EvAmuToMS.to(e)
+    if abs(float(v) - math.sqrt(e * conversion.EvAmuToMS.conversion_factor)) > 1e-15 * float(v) or \
+            abs(conversion.EvAmuToMS.inv(v) - e) > 1e-14 * e or abs(conversion.EvToJ.inv(conversion.EvToJ.to(e)) - e) > 1e-14 * e \
+            or abs(conversion.EvToJ.to(e) - e * conversion.EvToJ.conversion_factor) > 1e-15 * e * conversion.EvToJ.conversion_factor:
+        fails.append(dict(info, claim="EvAmuToMS / EvToJ conversions are sqrt(2 e E / amu), e E and their inverses", energy=e, speed=float(v)))
+    for route in ("constructor", "setters", "explicit"):
+        alt = copy.deepcopy(flat(case))
+        alt["att_route"] = route
+        other = _fresh(alt)[0]
+        vals = [other.density(*p) for p in pts]
+        if vals != base:
+            fails.append(dict(info, claim="the density does not depend on the route by which the attenuator was configured",
+                              route=route, points=pts, this=base, other=vals))
+            break
+
+    # (f) order of the species in the composition
+    if len(case["species"]) > 1:
+        alt = copy.deepcopy(flat(case))
+        alt["species"] = alt["species"][::-1]
+        alt["history"] = None
+        other = _fresh(alt)[0]
+        vals = [other.density(*p) for p in pts]
+        # rounding of the sum over species is amplified by the optical depth and by raysect's interpolation (see tol_interp)
+        if any(abs(a - b) > 1e-10 * abs(b) + 1e-15 * max(base) for a, b in zip(vals, base)):
+            fails.append(dict(info, claim="the density does not depend on the order of the species in the composition",
+                              points=pts, this=base, reversed=vals))
+
+    # (g) one ulp either side of the clamp radius: positive ... positive, zero ... zero, switching once next to it
+    if case["clamp"]:
+        z = 0.5 * L
+        sx, _ = sig(z)
+        if beam.density(0.0, 0.0, z) > 0:
+            xb = cs * sx
+            xs = [xb]
+            for _ in range(6):
+                xs.insert(0, float(np.nextafter(xs[0], 0.0)))
+                xs.append(float(np.nextafter(xs[-1], 2 * xb)))
+            pos = [beam.density(x, 0.0, z) > 0 for x in xs]
+            if not (pos[0] and not pos[-1] and pos == sorted(pos, reverse=True)):
+                fails.append(dict(info, claim="the density switches to zero exactly once within a few ulp of the clamp radius",
+                                  z=z, xs=xs, positive=pos))
+
+    # (h) extreme magnitudes of z in the direction field (z*z under- or overflows in double precision)
+    sg = case["sigma"]
+    for z in (5e-324, 1e-200, 1e-160, 1e160):
+        try:
+            d = beam.direction(sg, -sg, z)
+            n = math.sqrt(d.x * d.x + d.y * d.y + d.z * d.z)
+            ok = abs(n - 1) <= 1e-12
+            got = [d.x, d.y, d.z]
+        except Exception as ex:                          # noqa: BLE001 (reported)
+            ok, got = False, "%s: %s" % (type(ex).__name__, ex)
+        if not ok:
+            fails.append({"key": "c04:direction-extreme-z", "claim": "direction is a unit vector for every z > 0 "
+                          "(fails where z*z under- or overflows: 0 < z < 1.5e-154 or z > 1.3e154)",
+                          "point": [sg, -sg, z], "got": got, "beam": {k: case[k] for k in ("sigma", "div_x", "div_y")}})
+            break
     return fails
